@@ -632,7 +632,7 @@ func (rn *runner) run(h *history, worker int) {
 	dir := filepath.Join(c.Scratch, fmt.Sprintf("h%d", h.Index))
 	defer os.RemoveAll(dir)
 	s := proc.New(proc.Config{BGOff: true, Bin: rn.bin, Dir: dir, IP: proc.IP(13, worker), FS: true, FSMatch: "/data/",
-		Extra: map[string][]string{"data": {`write-cold-duration = "1h"`}}})
+		Extra: map[string][]string{"data.memtable": {`write-cold-duration = "1h"`, `force-snapShot-duration = "1h"`}}})
 	if err := s.Start(); err != nil {
 		c.Broken("start: %v", err)
 		return
